@@ -2,14 +2,15 @@
 import json
 from datetime import timedelta, timezone
 
-from ..gen import (DAY_US, canon, dt_us, floor_ms, mk_dt, rand_data, rand_duration, rand_instant, rand_offset, td_us)
+from ..gen import (DAY_US, canon, dt_us, floor_ms, mk_dt, rand_data, rand_duration, rand_instant, rand_offset, rand_zone_instant, td_us,
+                   zones_available)
 
 ID = "C13"
 LEVEL = "exploration"
 ANCHOR_FILES = ["aw_core/models.py", "aw_core/schema.py"]
 REQUIRED_COUNTERS = ["events_constructed", "schema_validations", "floor_values_checked"]
 RULE = ("(a) sweep: every microsecond value 0..999999 on base instants/offsets, as aware datetime and as ISO string; "
-        "(b) random instants 1970..2100 × UTC offsets in [-14h,+14h] × representations {aware datetime, isoformat(), "
+        "(b) random instants 1970..2100 × UTC offsets in [-14h,+14h] × representations {aware datetime (fixed offset, or an IANA zone with DST rules near a transition, fold 0/1), isoformat(), "
         "'Z' suffix, space separator, 1/2/3/4/5/6/9-digit fraction, ',' fraction, no fraction, basic format, +HHMM and +HH offsets} × durations {timedelta, int, "
         "float k/1e6} × generated JSON data × ids {None, int, str}; non-trivial = non-zero sub-millisecond part or "
         "non-UTC offset or float duration; signature = (representation, offset sign, µs class, duration kind, id kind)")
@@ -93,7 +94,8 @@ REPS = ["dt", "isoformat", "iso6", "iso3", "space6", "nofrac", "hhmm6", "z6", "z
 def _check_event_ts(e, want_us, label):
     ts = e.timestamp
     v = []
-    if ts.tzinfo is None or ts.utcoffset() != timedelta(0):
+    if ts.tzinfo is None or ts.utcoffset() != timedelta(0) or ts.tzinfo.utcoffset(None) != timedelta(0):
+        # "a UTC-aware datetime": the zone itself is UTC, not a DST zone that merely sits at +00:00 at that instant
         v.append((f"{label}-not-utc-aware", f"tzinfo={ts.tzinfo!r}"))
     elif dt_us(ts) != floor_ms(want_us):
         v.append((f"{label}-not-ms-floor", f"given_us={want_us} want={floor_ms(want_us)} got={dt_us(ts)}"))
@@ -121,11 +123,15 @@ def gen_case(rng, ctx):
         # early 1970-01-01 local time east of UTC: the instant lies before the epoch
         us = -rng.randrange(1, 14 * 3600 * 10**6)
         off = min(840, -(us // (60 * 10**6)) + rng.randrange(0, 30))
+    zone = None
+    if rng.random() < 0.15 and zones_available():
+        # an aware datetime in a zone with DST rules, typically within hours of a transition (repeated / skipped hour)
+        us, zone = rand_zone_instant(rng)
     durk = rng.choice(["td", "td", "int", "float"])
     dur = rand_duration(rng)
     if durk == "int":
         dur = dur // 10**6 * 10**6
-    return dict(kind="one", us=us, off=off, rep=rng.choice(REPS), durk=durk, dur=dur,
+    return dict(kind="one", us=us, off=off, zone=zone, rep="dt" if (zone and rng.random() < 0.7) else rng.choice(REPS), durk=durk, dur=dur,
                 data=rand_data(rng, 3), id=rng.choice([None, None, 0, 7, 2**40, "abc", "17"]))
 
 
@@ -150,7 +156,7 @@ def run_case(case, ctx):
         return viols, dict(sig=("sweep", rep, off, base), nontrivial=True, weight=n,
                            sample=dict(case, note=f"{n} consecutive microsecond values"))
     us, off, rep = case["us"], case["off"], case["rep"]
-    dt = mk_dt(us, off)
+    dt = mk_dt(us, off, case.get("zone"))
     given = dt if rep == "dt" else _iso(dt, rep)
     want_us = _expected_us(us, rep)
     dur_us = case["dur"]
@@ -198,6 +204,8 @@ def run_case(case, ctx):
     usc = "0" if us % 1000 == 0 else ("999" if us % 1000 == 999 else "x")
     if us < 0:
         usc += "-pre-epoch"
+    if case.get("zone"):
+        usc += "-dst-zone-fold%d" % getattr(dt, "fold", 0)
     sig = (rep, (off > 0) - (off < 0), usc, case["durk"], dur_us == 0, dur_us % 1000 != 0, type(case["id"]).__name__)
     nontriv = us % 1000 != 0 or off != 0 or case["durk"] == "float"
     return viols, dict(sig=sig, nontrivial=nontriv)
